@@ -368,6 +368,24 @@ pub fn refrace(entries: usize) -> String {
     format!("refrace submitted={} held-before-enter={} held-after-enter={} reaped={:?} exactly-once={}", n, held_before, held_after, reaped, exact)
 }
 
+/// The oldest unreaped completion, copied out BEFORE `get_next_cqe` advances the shared head (what liburing's
+/// peek does; only possible through the `verif_raw_parts` view of the ring pointers, `--cfg tiny_std_verif`).
+#[cfg(tiny_std_verif)]
+fn peek_cqe(ring: &IoUring) -> Option<(u64, i32)> {
+    use core::sync::atomic::{fence, Ordering};
+    let (p, _) = ring.verif_raw_parts();
+    unsafe {
+        let tail = core::ptr::read_volatile(p.cq_kernel_tail);
+        let head = core::ptr::read_volatile(p.cq_kernel_head);
+        fence(Ordering::Acquire);
+        if tail == head { return None; }
+        let c = core::ptr::read_volatile(p.cqes.add((head & p.cq_ring_mask) as usize));
+        Some((c.0.user_data, c.0.res))
+    }
+}
+#[cfg(not(tiny_std_verif))]
+fn peek_cqe(_ring: &IoUring) -> Option<(u64, i32)> { None }
+
 /// `overflow <dir> <seed> <rounds> <entries>`: on the REAL ring, the part of the kernel contract the batch run never
 /// reaches: every round submits MORE operations than the completion ring holds (cq_entries + 1 .. cq_entries + 2 *
 /// sq_entries, in chunks of at most sq_entries, some with IOSQE_ASYNC, some timeouts) WITHOUT reaping, so the kernel
@@ -388,6 +406,9 @@ pub fn overflow(dir: &str, seed: u64, rounds: usize, entries: usize) -> String {
     let cq = 2 * sq;
     let mut rng = Rng(seed);
     let (mut total, mut overflowed, mut inversions, mut max_drain) = (0usize, 0usize, 0usize, 0usize);
+    let read_delay: u64 = std::env::var("C18_READ_DELAY_SPINS").ok().and_then(|v| v.parse().ok()).unwrap_or(0);
+    let mut ref_overwritten = 0usize;
+    let mut first_overwrite = String::new();
     let mut hist: HashMap<&'static str, usize> = HashMap::new();
     for round in 0..rounds {
         let n = cq + 1 + rng.below(2 * sq as u64) as usize;
@@ -439,7 +460,22 @@ pub fn overflow(dir: &str, seed: u64, rounds: usize, entries: usize) -> String {
         let mut spins = 0;
         while got.len() < n {
             let mut drained = 0usize;
-            while let Some(c) = ring.get_next_cqe() { got.push((c.0.user_data, c.0.res)); drained += 1; if got.len() > 4 * n { break; } }
+            loop {
+                let peeked = peek_cqe(&ring);
+                let through_ref = match ring.get_next_cqe() {
+                    Some(c) => { for _ in 0..read_delay { core::hint::spin_loop(); } (unsafe { core::ptr::read_volatile(&c.0.user_data) }, unsafe { core::ptr::read_volatile(&c.0.res) }) }
+                    None => break,
+                };
+                // the completion ring is full here and the kernel posts (overflow flush, task work) whenever this thread
+                // passes through the kernel: what the returned reference shows can already be a LATER completion
+                // (known finding); account with the copy taken before the head moved and count the event
+                match peeked {
+                    Some(p) if p != through_ref => { ref_overwritten += 1; if first_overwrite.is_empty() { first_overwrite = format!("round {} peeked {:?} reference {:?}", round, p, through_ref); } got.push(p); }
+                    _ => got.push(through_ref),
+                }
+                drained += 1;
+                if got.len() > 4 * n { break; }
+            }
             // (a drain can be longer than the ring: completions of IOSQE_ASYNC / timeout requests are posted by task
             // work whenever this thread returns to user mode, also between two get_next_cqe calls)
             max_drain = max_drain.max(drained);
@@ -489,5 +525,7 @@ pub fn overflow(dir: &str, seed: u64, rounds: usize, entries: usize) -> String {
     let _ = std::fs::remove_dir_all(&b);
     let mut h: Vec<String> = hist.iter().map(|(k, v)| format!("{}={}", k, v)).collect();
     h.sort();
-    format!("agree rounds={} ops={} cq-entries={} through-overflow-or-late={} max-drain={} out-of-order-pairs={} {}", rounds, total, cq, overflowed, max_drain, inversions, h.join(" "))
+    let peek = if cfg!(tiny_std_verif) { "yes" } else { "no" };
+    let r = format!("rounds={} ops={} cq-entries={} through-overflow-or-late={} max-drain={} out-of-order-pairs={} peek={} reference-overwritten={} {}", rounds, total, cq, overflowed, max_drain, inversions, peek, ref_overwritten, h.join(" "));
+    if ref_overwritten > 0 { format!("refrace-in-the-wild {} first: {}", r, first_overwrite) } else { format!("agree {}", r) }
 }
